@@ -127,6 +127,11 @@ def bootstrap_ci(
 
         alpha_hat_lower = scipy.stats.norm.cdf(z_lower)
         alpha_hat_upper = scipy.stats.norm.cdf(z_upper)
+        # A component without any finite sample has no defined level (p0 = 0/0). Any
+        # valid level yields NaN limits for it; a NaN level would make nanquantile raise.
+        no_samples = nb_not_nan == 0
+        alpha_hat_lower = np.where(no_samples, 0.5, alpha_hat_lower)
+        alpha_hat_upper = np.where(no_samples, 0.5, alpha_hat_upper)
 
         ci = np.empty((metric_size, 2))
         for j in range(metric_size):
